@@ -32,6 +32,7 @@ OKP(offset), ACC(offset) == accumulator.  Postconditions:
     returns false  =>  n == s  or  (for the offset o of that iteration) not OKP(o+1)
 and OKP is antitone by definition, so "not OKP(o+1)" for some o < n is "not OKP(n)" (one-line induction,
 paper).  VALID_T(t) is  n > s and OKP(n);  NUM(t) is ACC(n)."""
+import os
 import z3
 
 from vlib.llvc import enc
@@ -59,9 +60,18 @@ def dec_wrapper(ctype):
             "  O(0, ok); if (ok) O(1, (%s)r);\n  return ok;" % (ctype, "int64_t" if ctype.startswith("int") else "uint64_t"))
 
 
-def enc_wrapper(ctype, base, grouping):
-    return ("  QStream s{0};\n  ::emboss::support::WriteIntegerToTextStream((%s)a0, &s, %d, %s);\n"
-            "  O(1, s.calls);\n  return 0;" % (ctype, base, "true" if grouping else "false"))
+def enc_wrapper(ctype, base, grouping, case="general"):
+    """The two wrappers of a signed type split the input space for the optimiser as the two contracts split it for the
+    solver: `min` passes the most negative value (a constant), `general` returns early on it (excluded by its precondition)."""
+    signed = ctype.startswith("int")
+    if signed and case == "min":
+        arg = "std::numeric_limits<%s>::lowest()" % ctype
+        pre = "  if ((%s)a0 != %s) return 0;\n" % (ctype, arg)
+    else:
+        arg = "(%s)a0" % ctype
+        pre = "  if ((%s)a0 == std::numeric_limits<%s>::lowest()) return 0;\n" % (ctype, ctype) if signed else ""
+    return (pre + "  QStream s{0};\n  ::emboss::support::WriteIntegerToTextStream(%s, &s, %d, %s);\n"
+            "  O(1, s.calls);\n  return 0;" % (arg, base, "true" if grouping else "false"))
 
 
 # ---------------------------------------------------------------------------
@@ -232,9 +242,9 @@ def contract_enc(k, W, signed, base, grouping, case="general"):
     if signed:
         # the most negative value takes its own path through the code; it is one concrete input
         k.requires(v == bv(1 << (W - 1), W) if case == "min" else v != bv(1 << (W - 1), W))
-    vw = z3.SignExt(8, v) if signed else z3.ZeroExt(8, v)
-    isneg = vw < 0
-    mag = z3.If(isneg, -vw, vw)
+    isneg = (v < 0) if signed else z3.BoolVal(False)
+    # |v| as an unsigned W-bit number (two's complement negation is exact for every negative v, 2^(W-1) for the most negative one)
+    mag = z3.ZeroExt(8, z3.If(isneg, -v, v))
     maxD = max_digits(W, signed, base)
     # number of digits of |v|: the D with base^(D-1) <= |v| < base^D (1 for 0)
     nd = bv(1, 64)
@@ -269,20 +279,63 @@ def contract_enc(k, W, signed, base, grouping, case="general"):
             total = total + z3.ZeroExt(WW - 8, dv) * bv(base ** it[1], WW)
         cl.append(T(len(items)) == 0)                                        # NUL-terminated right after the numeral
         cl.append(z3.ULT(ptr.off + bv(len(items), 64), ptr.region.size))     # and inside the (stack) buffer it points into
-        if chains:
-            # witness form of NUM(text) == |v|: digit k is the k-th remainder of a division chain a_0 = |v|, a_k = base*a_{k+1} + r_k,
-            # a_D = 0 (the chain's defining no-wrap facts are in the precondition); lemma.division-chain-sum gives sum r_k base^k = a_0
-            alts = []
+        # hints (each proved before it is used): the code obtains a digit character by indexing the constant table
+        # "0123456789abcdef"; LOOKUP(x) is that table read as the encoder models it.
+        parts = []
+        e = k.encoder
+        tabs = [rg for rg in e.global_addr.values() if getattr(rg, "init", None) is not None and bytes(rg.init[:16]) == b"0123456789abcdef"]
+        hints_ok = len(tabs) == 1
+        if hints_ok:
+            def LOOKUP(x64):
+                return e.load({}, enc.Ptr(tabs[0], x64), 1)[1]
+            x = z3.BitVec("x!digit", 64)
+            dc = lambda t: z3.If(z3.ULT(t, bv(10, 64)), z3.Extract(7, 0, t) + _ch("0"), z3.Extract(7, 0, t) + (ord("a") - 10))
+            lemma = z3.Implies(z3.ULT(x, bv(16, 64)), LOOKUP(x) == dc(x))
+            insts = []
             for chain in chains:
-                Wc = chain[0][0].size()
-                alt = [(z3.ZeroExt(Wc - 8, digit[i]) if Wc > 8 else digit[i]) == chain[i][2] for i in range(D)]
-                alt.append(chain[0][0] == (z3.Extract(Wc - 1, 0, mag) if Wc < WW else z3.ZeroExt(Wc - WW, mag)))
-                alt.append(chain[-1][1] == bv(0, Wc))
-                alts.append(z3.And(alt))
-            cl.append(z3.Or(alts + [total == mag]))
+                for i in range(D):
+                    r = chain[i][2]
+                    r64 = z3.ZeroExt(64 - r.size(), r) if r.size() < 64 else r
+                    insts.append(z3.Implies(z3.ULT(r64, bv(16, 64)), LOOKUP(r64) == dc(r64)))
+            seen = set()
+            for (rg, off) in e.table_loads:        # every index the code reads the table at
+                if rg is tabs[0] and off.get_id() not in seen and off.size() == 64:
+                    seen.add(off.get_id())
+                    insts.append(z3.Implies(z3.ULT(off, bv(16, 64)), LOOKUP(off) == dc(off)))
+            parts.append(("table-lookup-is-digit-char", lemma, "lemma", insts))
+            for ci, chain in enumerate(chains):
+                # the code widens a narrow remainder to index the table, by sign or by zero extension: try both spellings
+                for ext in ((z3.ZeroExt, z3.SignExt) if chain[0][2].size() < 64 else (z3.ZeroExt,)):
+                    eqs = []
+                    for pos, it in enumerate(items):
+                        if not isinstance(it, str):
+                            r = chain[it[1]][2]
+                            r64 = ext(64 - r.size(), r) if r.size() < 64 else r
+                            eqs.append(z3.And(T(pos) == LOOKUP(r64), z3.ULT(r64, bv(base, 64))))
+                    parts.append(("digits-are-table[remainders of chain %d, %s]" % (ci, ext.__name__), z3.And(eqs), "try-hint"))
+        parts.append(("shape", z3.And(cl)))
+        # NUM(text) == |v|.  Witness form: digit k is the k-th remainder of a division chain a_0 = |v|, a_k = base*a_{k+1} + r_k,
+        # a_D = 0 (the chain's defining no-wrap facts are in the precondition); lemma.division-chain-sum gives sum r_k base^k = a_0.
+        # The direct positional sum is always an alternative (it is what decides short numerals and the bases LLVM turns into shifts).
+        if base in (2, 16):
+            # for a power-of-two base the positional sum is a concatenation: digit k is bits [b*k, b*k+b) of |v|, nothing above digit D-1
+            b_ = 1 if base == 2 else 4
+            direct = ([z3.And(z3.Extract(b_ - 1, 0, digit[i]) == z3.Extract(b_ * i + b_ - 1, b_ * i, mag), z3.ULT(digit[i], bv(base, 8))) for i in range(D)] +
+                      ([z3.Extract(WW - 1, b_ * D, mag) == 0] if b_ * D < WW else []))
         else:
-            cl.append(total == mag)                                          # NUM(text) == |v| directly
-        return z3.And(cl)
+            direct = total == mag
+        alts = [total == mag]
+        for chain in chains:
+            Wc = chain[0][0].size()
+            alt = [(z3.ZeroExt(Wc - 8, digit[i]) if Wc > 8 else digit[i]) == chain[i][2] for i in range(D)]
+            alt.append(chain[0][0] == (z3.Extract(Wc - 1, 0, mag) if Wc < WW else z3.ZeroExt(Wc - WW, mag)))
+            alt.append(chain[-1][1] == bv(0, Wc))
+            alts.insert(0, z3.And(alt))
+        if base in (2, 16) and not chains:
+            parts.append(("value", direct, "each"))
+        else:
+            parts.append(("value", z3.Or(alts) if (len(alts) == 1 or D <= 4) else z3.Or(alts[:-1])))
+        return parts
     # per trip-count case the feasible (sign, number of digits of |v|) pairs are enumerated and the shape of each is proved:
     # sign, prefix, exactly that many digits (so no leading zero), separators, terminator, value
     k.ensures_by_cases("canonical-numeral-of-v", [z3.If(isneg, bv(1, 64), bv(0, 64)), nd], lambda vals: shape(bool(vals[0]), vals[1]))
@@ -329,18 +382,19 @@ def lemmas():
 
 
 def jobs(tier):
+    """One wrapper per TU (the pool runs TUs in parallel), the expensive ones first."""
     js = []
     for (tag, ctype, W, signed) in TYPES:
-        js.append({"tag": "codec_dec_" + tag, "includes": INCLUDES, "preamble": PREAMBLE, "prefix": "", "div_fresh": False,
-                   "wrappers": [("decode_%s" % tag, dec_wrapper(ctype), "contracts.text_codec:contract_dec", {"W": W, "signed": signed})]})
+        js.append((W * 4, {"tag": "codec_dec_" + tag, "includes": INCLUDES, "preamble": PREAMBLE, "prefix": "", "div_fresh": False,
+                           "wrappers": [("decode_%s" % tag, dec_wrapper(ctype), "contracts.text_codec:contract_dec", {"W": W, "signed": signed})]}))
         for base in (2, 10, 16):
-            ws = []
             for g in (False, True):
                 nm = "encode_%s_base%d_%s" % (tag, base, "grouped" if g else "plain")
-                ws.append((nm, enc_wrapper(ctype, base, g), "contracts.text_codec:contract_enc", {"W": W, "signed": signed, "base": base, "grouping": g}))
+                cost = max_digits(W, signed, base) ** 2 * (4 if base == 10 else 1)
+                js.append((cost, {"tag": "codec_" + nm, "includes": INCLUDES, "preamble": PREAMBLE, "prefix": "", "div_fresh": True, "unroll": 80,
+                                  "wrappers": [(nm, enc_wrapper(ctype, base, g), "contracts.text_codec:contract_enc", {"W": W, "signed": signed, "base": base, "grouping": g})]}))
                 if signed:
-                    ws.append((nm + "_min", enc_wrapper(ctype, base, g), "contracts.text_codec:contract_enc",
-                               {"W": W, "signed": signed, "base": base, "grouping": g, "case": "min"}))
-            js.append({"tag": "codec_enc_%s_%d" % (tag, base), "includes": INCLUDES, "preamble": PREAMBLE, "prefix": "", "div_fresh": True,
-                       "unroll": 80, "wrappers": ws})
-    return js
+                    js.append((cost // 8, {"tag": "codec_" + nm + "_min", "includes": INCLUDES, "preamble": PREAMBLE, "prefix": "", "div_fresh": True, "unroll": 80,
+                                           "wrappers": [(nm + "_min", enc_wrapper(ctype, base, g, "min"), "contracts.text_codec:contract_enc",
+                                                         {"W": W, "signed": signed, "base": base, "grouping": g, "case": "min"})]}))
+    return [j for (_, j) in sorted(js, key=lambda x: -x[0])]
